@@ -30,6 +30,8 @@ use std::{
 };
 
 pub const MIN_INDEX_BITS: u8 = 16;
+// Largest index (and reference count table) size whose file size still fits 64 bits.
+const MAX_INDEX_BITS: u8 = 54;
 pub const MIN_REF_COUNT_BITS: u8 = 16;
 // Measured in index entries
 const MAX_REINDEX_BATCH: usize = 8192;
@@ -1476,6 +1478,11 @@ impl HashColumn {
 		let reindex = self.reindex.upgradable_read();
 		match action {
 			LogAction::InsertIndex(record) => {
+				if !(MIN_INDEX_BITS..=MAX_INDEX_BITS).contains(&record.table.index_bits()) {
+					// Only a damaged log names such a table. Its size does not fit the
+					// arithmetic below (and growth would be restarted up to that size).
+					return Err(Error::Corruption("Unexpected log index size".to_string()))
+				}
 				if tables.index.id == record.table {
 					tables.index.validate_plan(record.index, log)?;
 				} else if let Some(table) = reindex
@@ -1530,6 +1537,9 @@ impl HashColumn {
 					// Only a damaged log can address the reference count table of a column that
 					// has none.
 					return Err(Error::Corruption("Unexpected log ref count action".to_string()))
+				}
+				if !(MIN_REF_COUNT_BITS..=MAX_INDEX_BITS).contains(&record.table.index_bits()) {
+					return Err(Error::Corruption("Unexpected log ref count size".to_string()))
 				}
 				if tables.get_ref_count().id == record.table {
 					tables.get_ref_count().validate_plan(record.index, log)?;
